@@ -21,7 +21,7 @@ GAPS_MS = [0, 0, 0, 1, 5, 10, 10, 20, 100, 600, 2500, 0.65, 1.7, 9.35, 19.5]    
 
 def generate(rng, tier, i):
     scn = {'kernel': gen.draw_kernel(rng), 'latency': {'kind': 'const', 'ns': 1000},
-           'stacks': [{'name': 'S', 'dll': rng.choice(['j1939-21', 'j1939-22']), 'max_cmdt': 1, 'cas': []}]}
+           'stacks': [{'name': 'S', 'dll': rng.choice(['j1939-21', 'j1939-22']), 'max_cmdt': 1, 'cas': [{'addr': 0x20, 'listen': False}]}]}
     ops = []
     n = rng.choice([1, 2, 3, 4, 6, 8, 12])
     ncb = rng.choice([1, 2, 3, 4])
@@ -82,6 +82,9 @@ def generate(rng, tier, i):
                  'act': [{'op': 'remove', 'cb': cb2, 'ctx': 'timer', 'gap_ms': 0},
                          {'op': 'add', 'cb': rng.randrange(ncb), 'period_ms': rng.choice([per, 20]), 'periodic': rng.random() < 0.5, 'ctx': 'timer', 'gap_ms': 0}][:rng.choice([1, 2, 2])]},
                 {'op': 'add', 'cb': cb2, 'period_ms': per, 'periodic': rng.random() < 0.7, 'ctx': 'app', 'gap_ms': 0}]
+    for o in ops:
+        if o['op'] in ('sub', 'unsub') and rng.random() < 0.4:
+            o['via'] = 'ca'
     # a timer callback that performs two operations in one invocation (e.g. replaces one timer by another: the list keeps its length)
     for o in ops:
         if o.get('ctx') == 'timer' and o['op'] in ('add', 'remove') and rng.random() < 0.3:
@@ -198,11 +201,14 @@ def execute(scn, keep_log=False, hook=None):
             flt = o['filter']
             if flt == 'pred':
                 flt = (lambda d: d in (0x20, 0x21))
-            lib(o, lambda: ecu.subscribe(sub_fn(o['cb']), flt))
+            if o.get('via') == 'ca':
+                lib(o, lambda: st.cas[0].subscribe(sub_fn(o['cb'])))        # through the controller application (its own destination filter)
+            else:
+                lib(o, lambda: ecu.subscribe(sub_fn(o['cb']), flt))
             subs.setdefault(o['cb'], []).append(stamp())
         elif o['op'] == 'unsub':
             u0 = stamp()
-            lib(o, lambda: ecu.unsubscribe(sub_fn(o['cb'])))
+            lib(o, lambda: (st.cas[0] if o.get('via') == 'ca' else ecu).unsubscribe(sub_fn(o['cb'])))
             unsub.setdefault(o['cb'], []).append(stamp() + (u0[1],))       # (time returned, tick returned, tick called)
         elif o['op'] == 'frame':
             injected.append(sim.now)
